@@ -7,6 +7,7 @@ import (
 	"math/rand"
 	"os"
 	"sort"
+	"strings"
 	"sync"
 	"time"
 )
@@ -67,3 +68,27 @@ func D2Bad() string {
 
 // D2Good uses time only for formatting a given value.
 func D2Good(t time.Time) string { return t.Format(time.RFC3339) }
+
+var bufPool = sync.Pool{New: func() any { return new(strings.Builder) }}
+
+// M8Bad returns the pooled object dirty when it fails.
+func M8Bad(fail bool) string {
+	b := bufPool.Get().(*strings.Builder)
+	defer bufPool.Put(b)
+	b.WriteString("x")
+	if fail {
+		return ""
+	}
+	s := b.String()
+	b.Reset()
+	return s
+}
+
+// M8Good resets before first use.
+func M8Good() string {
+	b := bufPool.Get().(*strings.Builder)
+	b.Reset()
+	defer bufPool.Put(b)
+	b.WriteString("x")
+	return b.String()
+}
